@@ -207,6 +207,9 @@ def run(ctx):
         k = rng.randrange(2 ** 50, 2 ** 51)
         values.append(('d', rng.choice([1, -1]) * (k + rng.choice([0.25, 0.75]))))
     values.append(('d', 2214702772090829.75))
+    # negative zero: equal to 0.0 but rendered '-0.0' (that half is the recorded finding C08:negative-zero); its text must still read
+    # back to a value that renders the same text again
+    values += [('d', -0.0), ('l', (('d', -0.0), ('i', 1))), ('m', ((('s', 'k'), ('d', -0.0)),)), ('l', (('l', (('d', -0.0),)),))]
     it, _ = common.fresh_interpreter(True, False)
     reqs, meta = [], []
     for av in values:
@@ -250,6 +253,8 @@ def run(ctx):
                 ctx.count("insertion_orders")
                 if t2 != text:
                     ctx.violation("oracle", f"equal values render differently by construction order: {text[:160]!r} vs {t2[:160]!r}", dict(rp, other=proto.to_sx(other)))
+        if G.is_negzero(av):
+            continue            # the model's decimals are exact dyadic rationals: no signed zero
         reqs.append(f"(render {proto.to_sx(av)})")
         meta.append((av, text))
     # all insertion orders of up to 5 elements
